@@ -26,7 +26,10 @@ def run(ck, an, tier):
     s3(ck, an)
     s4(ck, an)
     s5(ck, an)
-    allocation_filters(ck, an, "S2")      # which entries of a target survive into the allocation (non-cash, non-zero, keyed by static hashing)
+    allocation_filters(ck, an, "S2")
+    from rules import ledger
+    from sa.report import Renamed
+    ledger.transact_equations(Renamed(ck, "C01:"), an, {"equations"})     # executing a trade moves the position by exactly the traded quantity (targets are reached exactly)      # which entries of a target survive into the allocation (non-cash, non-zero, keyed by static hashing)
 
 
 def _conv(ck, an, short, rule, spec, result_cls, what):
